@@ -2,4 +2,4 @@ Require Extraction.
 Require Import ExtrOcamlBasic.
 From LedgerV Require Import Base.Prelude Base.Round Base.ExtractHelpers Model.Amount Model.Xact Model.Assert.
 Extraction "model_C09.ml" h_add h_mul h_div h_mod h_opp h_ltb h_eqb h_qred h_qmake h_qnum h_qden
-  run_journal_a run_journal_x auto_ext cost_per_unit cost_total.
+  run_journal_a run_journal_x run_journal_d under auto_ext cost_per_unit cost_total.
